@@ -148,6 +148,19 @@ META = {
         assumptions=[],
         timeout=2400,
     ),
+    "C18": dict(
+        rule="one local transaction (autocommit statement or explicit transaction with 1-3 statements; UPDATE with "
+             "literal/parameter/column+expr SET clauses, DELETE, single- and multi-row INSERT; WHERE built from "
+             "comparisons, AND/OR/NOT, IN, BETWEEN, IS NULL, parentheses, parameters anywhere) on generated schemas "
+             "(single/composite, integer/string keys, nullable columns) with both settings of only-care-update-columns; "
+             "observed: the decoded undo-log items and lock keys. Oracle on the implementation alone: the table is read "
+             "just before and just after every statement (inside the local transaction) and the WHERE clause is "
+             "evaluated separately by the engine; every touched row must be in the image with the database's content on "
+             "exactly the tracked columns, and no other row",
+        trusted=["memdb's own WHERE evaluation (differentially tested against DB/Store.lean by the same cases)"],
+        assumptions=[],
+        timeout=2400,
+    ),
     "C02": dict(
         rule="one AT local transaction (autocommit statement, or explicit BEGIN/1-2 statements/COMMIT; UPDATE, DELETE or "
              "INSERT that certainly changes a row) inside a global transaction, run once fault-free and then once per "
